@@ -325,11 +325,11 @@ def c13_9(ctx):
         if not any(isinstance(s, ast.Assign) and U(s.targets[0]) == b and N(s.value) == NS('%s if %s is None or isinstance(%s, datetime.time) else dt(%s)' % (b, b, b, b)) for s in ast.walk(f.node)):
             ctx.fail(f, f.node, 'the bound %s is no longer converted with dt() (strings/ints would be compared with timestamps)' % b)
     nts = [s for s in ast.walk(f.node) if isinstance(s, ast.If) and N(s.test) == 'is_ts(%s)' % df]
-    if nts and nts[0].orelse and isinstance(nts[0].orelse[0], ast.If):
+    if nts and else_of(nts[0]) and isinstance(else_of(nts[0])[0], ast.If):
         ctx.count(1)
-        ok, w = prop_equiv(nts[0].orelse[0].test, '(l or lb is None) and (ub is None or not u)')
+        ok, w = prop_equiv(else_of(nts[0])[0].test, '(l or lb is None) and (ub is None or not u)')
         if not ok:
-            ctx.fail(f, nts[0].orelse[0], 'positional slicing of a non-timeseries (closed start, open end) is taken when `%s`' % U(nts[0].orelse[0].test), witness=w)
+            ctx.fail(f, else_of(nts[0])[0], 'positional slicing of a non-timeseries (closed start, open end) is taken when `%s`' % U(else_of(nts[0])[0].test), witness=w)
     rr = returns_of(f.node)
     if not rr or U(rr[-1].value) != df:
         ctx.fail(f, f.node, '_df_slice does not return the (masked) data')
